@@ -53,7 +53,9 @@ InOp == op.k # ""
 Own == {"objT", "objF", "uniq"}
 RefF == {"ref", "sref"}
 TypeNo(k) == IF k = "S1" THEN 1 ELSE IF k = "S2" THEN 2 ELSE 0
-Code(c) == c.v * 10 + c.a
+KindNo(k) == CASE k = "SN" -> 1 [] k = "EX" -> 2 [] k = "ST" -> 3 [] k = "LG" -> 4 [] k = "OA" -> 5 [] k = "S1" -> 6 [] k = "S2" -> 7 [] OTHER -> 0
+\* what get_code() of a payload of type k holding (v, a) returns: a CPO dispatched through the vtable of another type gives another number
+Code(c) == KindNo(c.k) * 1000 + c.v * 10 + c.a
 Content(w) == IF cont[w].t = "ref"
               THEN [k |-> objs[cont[w].id].kd, v |-> objs[cont[w].id].val, a |-> xa[cont[w].id]]
               ELSE [k |-> cont[w].k, v |-> cont[w].v, a |-> cont[w].a]
@@ -110,7 +112,8 @@ Copy == /\ Is("Copy") /\ Fresh /\ ph = "run" /\ InOp
 Dtor == /\ Is("Dtor")
         /\ E.id \in DOMAIN objs /\ objs[E.id].live                   \* exactly once, and only of a live object
         /\ \/ ph = "run" /\ ~objs[E.id].ext /\ (fam \notin RefF \/ (fam = "sref" /\ InOp /\ op.k = "sched"))
-              /\ (InOp => op.k \in {"construct", "assign", "movea", "destroy", "copyc", "copya", "sched"})
+              \* (an implementation may destroy the moved-from remainder eagerly in a move construction)
+              /\ (InOp => (op.k \in {"construct", "assign", "movea", "destroy", "copyc", "copya", "sched"} \/ (op.k = "movec" /\ E.id = oc.from)))
            \/ ph = "quiesced" /\ objs[E.id].ext
         /\ objs' = [objs EXCEPT ![E.id].live = FALSE]
         /\ UNCHANGED <<fam, cfg, ph, blks, cont, xa, op, oc>>
@@ -178,8 +181,7 @@ MoveOk ==
 ConstructOk ==
   /\ oc.new # 0 /\ objs[oc.new].live /\ objs[oc.new].val = op.val /\ objs[oc.new].kd = op.kind
   /\ Placed(oc.new, W) /\ OnlySurvivor(oc.new)
-  /\ oc.copy = 0
-  /\ fam \in Own => oc.move = (IF op.via = "value" THEN 1 ELSE 0) /\ oc.ctor = 1
+  /\ oc.copy = 0                      \* (how often a *value argument* is moved on its way in is not constrained)
 InvokeOk ==
   LET c == cont[W]
       o == Content(W)
@@ -188,9 +190,9 @@ InvokeOk ==
      /\ Usable(W) =>
           CASE op.cpo = "get" -> E.exc = 0 /\ E.res = Code(o)
             [] op.cpo = "add" -> E.exc = 0 /\ E.res = Code(o1)
-            [] op.cpo = "snd" -> E.exc = 0 /\ E.res = Code(o) + 7000
-            [] op.cpo = "ovl" -> E.exc = 0 /\ E.res = Code(o) * 3
-            [] op.cpo = "thr" -> E.exc = 2000 + Code(o)
+            [] op.cpo = "snd" -> E.exc = 0 /\ E.res = Code(o) + 70000
+            [] op.cpo = "ovl" -> E.exc = 0 /\ E.res = Code(o) + 300000
+            [] op.cpo = "thr" -> E.exc = 20000 + Code(o)
             [] OTHER -> FALSE
 EqK(a, b) == a.k = b.k /\ a.v = b.v
 
